@@ -19,6 +19,7 @@ from mc.runner import Result
 
 PROPERTY = "C20"
 LEVEL = "model_checking"
+TECHNIQUE = "bounded exhaustive enumeration over infinity / narrow-integer / variance alphabets against NumPy and exact integers"
 ENGINE = "E1"
 RULE = (
     "state = (leg, reduction, engine, dtype, label tuple, eager | (chunking, method), value tuple over the leg's alphabet); "
